@@ -1343,25 +1343,26 @@ def check_multimethod_case(ctx, case):
   consts = case['consts']
 
   class Leaf(nn.Module):
-    w0: int
+    idx: int
 
     @nn.compact
     def __call__(self, x):
-      return x * self.param('w', lambda key: I(self.w0))
+      i = self.idx
+      w = self.param('w', lambda key: I(consts[i] + 2))
+      n = self.variable('stats', 'n', lambda: I(i))
+      if self.is_mutable_collection('stats'):
+        n.value = n.value + consts[i]
+      return x * w + n.value * (i + 1)
 
   lp.KEEP_ALIVE.append(Leaf)
 
   def setup(self):
     for i in range(len(names)):
-      setattr(self, f'l{i}', Leaf(consts[i] + 2))
+      setattr(self, f'l{i}', Leaf(i))
 
   def mk_method(i):
     def m(self, x):
-      y = getattr(self, f'l{i}')(x)
-      n = self.variable('stats', f'n{i}', lambda: I(i))
-      if self.is_mutable_collection('stats'):
-        n.value = n.value + consts[i]
-      return y + n.value * (i + 1)
+      return getattr(self, f'l{i}')(x) + i
 
     m.__name__ = names[i]
     return m
@@ -1403,6 +1404,10 @@ def check_multimethod_case(ctx, case):
       for nm in case['order']:
         rec.append(lp.call(lambda: canon(C().apply(case_vars(case, names, None), x, method=nm, mutable=['stats']))))
     obs[which] = rec
+  if not any(r[0] == 'ok' for r in obs['plain']):
+    from harness.common import InfraError
+
+    raise InfraError(f'multimethod generator degenerated: the untransformed class fails on every step: {obs["plain"][:2]}')
   ctx.case(case)
   ctx.count('transform', f'multimethod-{t}/{case["form"]}/{case["mode"]}')
   for i, (p, l) in enumerate(zip(obs['plain'], obs['lifted'])):
@@ -1413,7 +1418,7 @@ def check_multimethod_case(ctx, case):
 
 def case_vars(case, names, sub):
   params = {f'l{i}': {'w': I(case['ws'][i])} for i in range(len(names))}
-  stats = {f'n{i}': I(case['ns'][i]) for i in range(len(names))}
+  stats = {f'l{i}': {'n': I(case['ns'][i])} for i in range(len(names))}
   if sub:
     return {'params': {sub: params}, 'stats': {sub: stats}}
   return {'params': params, 'stats': stats}
